@@ -196,3 +196,46 @@ pub fn parse_tree(input: &str, ctx: &Context) -> Result<Tree, String> {
 	let parsed = crate::parser::parse_tokens(&tokens).map_err(|e| e.to_string())?;
 	Ok(dump(&parsed, &mut scratch))
 }
+
+/// Number of `should_interrupt` calls a `BigUint` operation makes on raw
+/// operands (`Small(n)` if `small`, else `Large(limbs)` exactly as given):
+/// `mul` (`BigUint::mul`, i.e. `mul_internal` unless both are small and the
+/// product fits), `divmod`, `lshift` (one bit, through `lshift_n(1)`),
+/// `rshift` (one bit, through `rshift_n(1)`).  Returns the count, or the
+/// error message.  Only existing methods are called.
+pub fn biguint_polls(
+	op: &str,
+	a_small: bool,
+	a: &[u64],
+	b_small: bool,
+	b: &[u64],
+) -> Result<u64, String> {
+	use crate::num::verif_access::BigUint;
+	struct Count(std::cell::Cell<u64>);
+	impl Interrupt for Count {
+		fn should_interrupt(&self) -> bool {
+			self.0.set(self.0.get() + 1);
+			false
+		}
+	}
+	let mk = |small: bool, v: &[u64]| {
+		if small {
+			BigUint::Small(v.first().copied().unwrap_or(0))
+		} else {
+			BigUint::Large(v.to_vec())
+		}
+	};
+	let (x, y) = (mk(a_small, a), mk(b_small, b));
+	let int = Count(std::cell::Cell::new(0));
+	let r = match op {
+		"mul" => x.mul(&y, &int).map(|_| ()),
+		"divmod" => x.divmod(&y, &int).map(|_| ()),
+		"lshift" => x.lshift_n(&BigUint::Small(1), &int).map(|_| ()),
+		"rshift" => x.rshift_n(&BigUint::Small(1), &int).map(|_| ()),
+		_ => return Err(format!("unknown op {op}")),
+	};
+	match r {
+		Ok(()) => Ok(int.0.get()),
+		Err(e) => Err(e.to_string()),
+	}
+}
